@@ -52,6 +52,10 @@ type VirtualMachine struct {
 	tmp          [MaxArgs]object.Object
 	stack        [MaxStackDepth]object.Object
 	frames       [MaxFrameDepth]frame
+
+	// Names of the globals supplied by the options of the latest New or
+	// RunCode call (inputGlobals accumulates over all calls)
+	currentGlobals map[string]bool
 }
 
 // New creates a new Virtual Machine.
@@ -99,6 +103,7 @@ func (vm *VirtualMachine) applyOptions(options []Option) error {
 	}
 
 	// Apply options
+	vm.currentGlobals = map[string]bool{}
 	for _, opt := range options {
 		opt(vm)
 	}
@@ -112,12 +117,18 @@ func (vm *VirtualMachine) applyOptions(options []Option) error {
 
 	// Add any globals that are modules to a cache to make them available
 	// to import statements
-	for name, value := range vm.globals {
-		if module, ok := value.(*object.Module); ok {
+	vm.registerModules()
+	return nil
+}
+
+// registerModules makes the modules among the globals supplied for the current
+// run available to import statements.
+func (vm *VirtualMachine) registerModules() {
+	for name := range vm.currentGlobals {
+		if module, ok := vm.globals[name].(*object.Module); ok {
 			vm.modules[name] = module
 		}
 	}
-	return nil
 }
 
 func (vm *VirtualMachine) start(ctx context.Context) error {
@@ -208,6 +219,10 @@ func (vm *VirtualMachine) runCodeInternal(ctx context.Context, codeToRun *compil
 	// Reset VM state for new code execution if requested
 	if resetState && vm.startCount > 1 {
 		vm.resetForNewCode()
+		// The reset emptied the module cache that applyOptions had filled:
+		// without this, importing a module of the globals worked on the
+		// first run of a VM only ("imports are disabled" afterwards)
+		vm.registerModules()
 	} else if !resetState {
 		// Run continues the main code where the previous run stopped (REPL).
 		// Nothing on the operand stack is live between runs: drop the previous
